@@ -24,4 +24,6 @@ MUTANTS = [
     Mutant('le_lt_swapped', C, edit_node('NMTranPrinter._print_LessThan', lambda n, seg: isinstance(n, ast.Constant) and seg == '".LE."', lambda seg: '".LT."'), 'B3', '<= printed as .LT.'),
     Mutant('binary_infix', C, edit_node('NMTranPrinter._do_infix', lambda n, seg: isinstance(n, ast.Return), lambda seg: 'return super()._print(expr.args[0]) + op + super()._print(expr.args[1])'), 'B3', 'only two operands printed'),
     Mutant('map_from_graph', U, edit_node('new_compartmental_map', lambda n, seg: isinstance(n, ast.Attribute) and seg == 'cs.compartment_names', lambda seg: '[c.name for c in cs._g.nodes if hasattr(c, "name")]'), 'B4', 'numbering from insertion order'),
+    Mutant('trans1_micro_only_advan3', U, text_edit("    elif advan in ('ADVAN3', 'ADVAN11', 'ADVAN12') and trans == 'TRANS1':", "    elif advan in ('ADVAN3',) and trans == 'TRANS1':"), 'B17', 'K13/K31 and K23..K42 not defined for ADVAN11/12 TRANS1'),
+    Mutant('trans1_micro_table_short', U, text_edit("            'ADVAN11': [('K12', 'K21'), ('K13', 'K31')],", "            'ADVAN11': [('K12', 'K21')],"), 'B17', 'second peripheral of ADVAN11 gets no constants'),
 ]
